@@ -212,6 +212,29 @@ func RunWalletXMSS(ep *Episode) *Result {
 	durExt := before.o.ext
 	durHex := string(append([]byte(nil), before.o.hexSeed...))
 	durMnem := string(append([]byte(nil), before.o.mnem...))
+	if ep.ExportLate {
+		// the wallet exports its secrets at the very end of the key's life
+		leaves := uint32(1) << ep.Height
+		oc := guard(func() {
+			if orig.GetIndex() < leaves-1 {
+				orig.SetIndex(leaves - 1)
+			}
+			if orig.GetIndex() == leaves-1 {
+				if _, err := orig.Sign([]byte("last leaf")); err != nil {
+					panic(err)
+				}
+			}
+		})
+		late, oc2 := observe(orig, true)
+		if oc.panicked || oc2.panicked {
+			w.add("observe-failed", cfg+",late", "using the key to its last leaf failed: "+oc.pval+oc2.pval)
+			return res
+		}
+		res.Probes.Add("wallet:export-after-last-leaf", 1)
+		durSeed, durExt = late.seed, late.ext
+		durHex = string(append([]byte(nil), late.hexSeed...))
+		durMnem = string(append([]byte(nil), late.mnem...))
+	}
 	orig = nil // crash
 
 	for _, form := range ep.Forms {
@@ -456,6 +479,9 @@ func newWalletBatch(b *Batch, fr *core.Rand, thorough bool) {
 		leaves := uint32(1) << h
 		if r.Chance(0.4) {
 			ep.AtIndex = r.Uint32n(minU(leaves-2, 40))
+		}
+		if h <= 10 && r.Chance(0.2) {
+			ep.ExportLate = true
 		}
 		if stub && leaves >= 1024 && r.Chance(0.3) { // signatures far into the key's life
 			ep.AtIndex = r.Uint32n(minU(leaves-4, 5000))
